@@ -575,6 +575,10 @@ class JSONPathEnvironment:
     def _contains(
         self, container: Union[Mapping[Any, Any], Sequence[Any]], item: object
     ) -> bool:
+        if isinstance(container, Sequence) and not isinstance(container, str):
+            # The same notion of equality as `==`. Python's `in` would find
+            # `true` in `[1]`.
+            return any(self._eq(item, element) for element in container)
         try:
             return item in container
         except TypeError:
